@@ -30,7 +30,9 @@ B(x) == IF x THEN 1 ELSE 0
 Init == tid \in 1..N
 Next == UNCHANGED vars
 Spec == Init /\ [][Next]_vars
-Judge == TLCSet(tid, <<B(Broken = {}), B(VerdictOk), B(SchemaOk), SetToSeq(Broken)>>)
+\* as-is model (known finding "duplicate output names"): is the observed schema the collapsed one?
+AsIs == Broken = {} /\ Obs.res = "ok" /\ Obs.schema_res = "ok" /\ SchemaMatches(Collapse(SchemaOf(Obs.ast)), Obs.schema)
+Judge == TLCSet(tid, <<B(Broken = {}), B(VerdictOk), B(SchemaOk), SetToSeq(Broken), B(AsIs)>>)
 ASSUME \A i \in 1..N : TLCSet(i, <<>>)
 Post == \A i \in 1..N : PrintT(<<"VERDICT", i>> \o TLCGet(i))
 =============================================================================
